@@ -3,7 +3,7 @@
 From Coq Require Import String List Bool NArith ZArith.
 From OP Require Import Base.Str Base.Check Base.ParserTypes Base.Res Base.Json Base.Sx Base.DTree
                        Gen.GParser Gen.GChecks Gen.GPolicy
-                       Model.Leaf Model.SR Model.Tokenize Model.Print Model.Eval Model.Trace Model.Enforce Model.CheckRules
+                       Model.Leaf Model.SR Model.Tokenize Model.Print Model.Eval Model.Trace Model.Enforce Model.CheckRules Model.Load
                        Spec.Grammar Spec.ListRule Spec.Template Spec.LeafSpec.
 Import ListNotations.
 Set Implicit Arguments.
@@ -349,6 +349,70 @@ Definition suite_check_rules (args : list sx) : sx :=
   | _ => bad
   end.
 
+(* ---------- loader ---------- *)
+Definition dcontent (x : sx) : option content := dlist (dpair dstr djv) x.
+Definition dpfile (x : sx) : option pfile :=
+  match x with
+  | L [A m; ct] => match dcontent ct with
+                   | Some c => Some {| pf_mtime := Z.to_N m; pf_content := c |} | None => None end
+  | _ => None end.
+Definition ddentry (x : sx) : option dentry :=
+  match x with
+  | L [A 0; f] => match dpfile f with Some f' => Some (EFile f') | None => None end
+  | L [A 1; A m] => Some (ESub (Z.to_N m))
+  | _ => None end.
+Definition dpdir (x : sx) : option pdir :=
+  match x with
+  | L [A m; es] => match dlist (dpair dstr ddentry) es with
+                   | Some es' => Some {| pd_mtime := Z.to_N m; pd_entries := es' |} | None => None end
+  | _ => None end.
+Definition dfsys (x : sx) : option fsys :=
+  match x with
+  | L [m; ds] => match dopt dpfile m, dlist (dopt dpdir) ds with
+                 | Some m', Some ds' => Some {| fs_main := m'; fs_dirs := ds' |} | _, _ => None end
+  | _ => None end.
+Definition drdef (x : sx) : option rdef :=
+  match x with
+  | L [n; cs; dep; sc] =>
+      match dstr n, dstr cs, dopt (dpair dstr dstr) dep, dlist dstr sc with
+      | Some n', Some cs', Some dep', Some sc' =>
+          Some {| rd_name := n'; rd_check_str := cs'; rd_check := parse_value (JStr cs');
+                  rd_dep := match dep' with
+                            | Some (dn, dcs) => Some {| dp_name := dn; dp_check_str := dcs;
+                                                        dp_check := parse_value (JStr dcs) |}
+                            | None => None end;
+                  rd_scope := sc' |}
+      | _, _, _, _ => None end
+  | _ => None end.
+Definition dlconf (x : sx) : option lconf :=
+  match x with
+  | L [en; regs; ow] => match dbool en, dlist drdef regs, dbool ow with
+                        | Some en', Some regs', Some ow' =>
+                            Some {| c_enforce_new_defaults := en'; c_registered := regs'; c_overwrite := ow' |}
+                        | _, _, _ => None end
+  | _ => None end.
+
+Definition sx_of_est (s : est) : sx :=
+  L [sx_of_list (fun p => L [sx_of_str (fst p); sx_of_str (print (snd p))]) (e_rules s);
+     sx_of_list (fun p => sx_of_str (fst p)) (e_file_rules s);
+     sx_of_bool (e_path_known s);
+     sx_of_option (fun p => sx_of_N (fst p)) (e_mcache s);
+     sx_of_list (sx_of_option sx_of_N) (e_dmtimes s)].
+
+(* history: [conf; steps] with step = [fsys; force]  ->  the state after every load *)
+Definition suite_load (args : list sx) : sx :=
+  match args with
+  | [cf; steps] =>
+      match dlconf cf, dlist (dpair dfsys dbool) steps with
+      | Some cf', Some steps' =>
+          L (snd (fold_left (fun acc st =>
+                               let s' := load_rules cf' (fst acc) (fst st) (snd st) in
+                               (s', snd acc ++ [sx_of_est s']))
+                            steps' (init_state, [])))
+      | _, _ => bad end
+  | _ => bad
+  end.
+
 Definition wire_main (x : sx) : sx :=
   match x with
   | L (A 1 :: args) => suite_tokenize args
@@ -360,5 +424,6 @@ Definition wire_main (x : sx) : sx :=
   | L (A 7 :: args) => suite_spec_c02 args
   | L (A 8 :: args) => suite_spec_leaf args
   | L (A 9 :: args) => suite_check_rules args
+  | L (A 10 :: args) => suite_load args
   | _ => sx_err 1
   end.
